@@ -44,6 +44,29 @@ func genC19(r *Rng, tier string, idx int) *Plan {
 		p.Knobs["limit"] = int64(r.Range(120, 600))
 		p.Dice = drawDice(r, 192)
 	}
+	if p.Profile == "conc" && r.Chance(0.4) {
+		// "tight": one collection whose creation just fits under the limit; every in-place growth carries the figure
+		// across it once the re-measuring pass has run, so the bookkeeping goroutines evict - next to the
+		// re-measuring pass of the other command of the pair
+		p.Knobs["tight"] = int64(r.Range(1, 24))
+		p.SKnobs["policy"] = Pick(r, []string{"allkeys-lru", "allkeys-lfu"})
+		p.Knobs["dbs"] = 1
+		m := 0
+		mem := func(n int) []string {
+			var out []string
+			for i := 0; i < n; i++ {
+				m++
+				out = append(out, fmt.Sprintf("m%d", m))
+			}
+			return out
+		}
+		for i, n := 0, r.Range(3, 10); i < n; i++ {
+			p.Ops = append(p.Ops, Op{Kind: "ensure", Args: []string{"SADD", "k1", "m0"}})
+			p.Ops = append(p.Ops, Op{Kind: "pairA", Args: append([]string{"SADD", "k1"}, mem(r.Range(1, 3))...)},
+				Op{Kind: "pairB", Args: append([]string{Pick(r, []string{"SADD", "SADD", "SREM"}), "k1"}, mem(r.Range(1, 3))...)})
+		}
+		return p
+	}
 	g := &GenCfg{Keys: []string{"k1", "k2", "k3", "k4"}, NowMs: 946684800000, Writes: true}
 	if p.Profile == "conc" {
 		// few keys, mostly collections that grow and shrink in place: the usage figure then changes in the
@@ -88,6 +111,17 @@ func runC19(t *testing.T, p *Plan) *Outcome {
 		cfg := BaseConfig
 		cfg.EvictionPolicy = p.SK("policy")
 		cfg.MaxMemory = uint64(p.K("limit"))
+		if p.K("tight") > 0 {
+			// the limit is what the one-member collection occupies plus a few bytes (measured on a scratch instance)
+			probe, err := s.Boot(99, BaseConfig)
+			if err != nil {
+				fail("boot-failed", fmt.Sprint(err))
+				return
+			}
+			s.NewEmbeddedClient(probe, "p").DoSync("SADD", "k1", "m0")
+			cfg.MaxMemory = uint64(probe.DB.VerifDump().DBs[0]["k1"].Mem + p.K("tight"))
+			s.KillInstance(99)
+		}
 		cfg.EvictionInterval = 500 * time.Millisecond
 		inst, err := s.Boot(1, cfg)
 		if err != nil {
@@ -163,6 +197,17 @@ func runC19(t *testing.T, p *Plan) *Outcome {
 						break
 					}
 					tk, stuck := PickFair(parked, dice.Next(len(parked)), 300)
+					// bias (half of the decisions): when the re-measuring pass of a write command stands in front of the
+					// store lock, let the other store-lock sections (bookkeeping goroutines, the partner command) go
+					// first - the window in which the figure and the dataset can drift apart
+					if tk.Bookkeeping && dice.Next(2) == 0 {
+						for _, x := range parked {
+							if !x.Bookkeeping && (x.Site == "lock.store" || x.Site == "ks.updateKeysInCache") {
+								tk = x
+								break
+							}
+						}
+					}
 					s.noteChoice(len(parked), tk.Site)
 					if stuck {
 						fail("livelock/"+tk.Site, fmt.Sprintf("%q || %q: task t%d spun %d times at %s", op.Args, opB.Args, tk.ID, tk.Spins, tk.Site))
@@ -178,6 +223,13 @@ func runC19(t *testing.T, p *Plan) *Outcome {
 				continue
 			}
 			if op.Kind == "pairA" || op.Kind == "pairB" {
+				op.Kind = ""
+			}
+			if op.Kind == "ensure" {
+				// (re)create the collection if an eviction removed it
+				if _, ok := inst.DB.VerifDump().DBs[0][op.Args[1]]; ok {
+					continue
+				}
 				op.Kind = ""
 			}
 			if op.Kind == "advance" {
